@@ -937,7 +937,7 @@ structure HypsOn (o : BuildOpts) (ps : List Policy) (req : Request) : Prop where
 theorem clause2_fields (tcp : Bool) (p : Policy) :
     (clause2 tcp p).action = p.action ∧ (clause2 tcp p).dryRun = p.dryRun ∧ (clause2 tcp p).ns = p.ns ∧
     (clause2 tcp p).provider = p.provider ∧ (clause2 tcp p).selector = p.selector ∧
-    (clause2 tcp p).targetRefs = p.targetRefs := by
+    (clause2 tcp p).refs = p.refs := by
   unfold clause2; split <;> exact ⟨rfl, rfl, rfl, rfl, rfl, rfl⟩
 
 theorem enforced_clause2 (a : Action) (tcp : Bool) (ps : List Policy) :
@@ -1025,14 +1025,20 @@ theorem custom_exact_selected (o : BuildOpts) (c : CustomOpts) (ps : List Policy
   rw [mem_enforced_action hp] at this
   exact this
 
+theorem refDesignates_clause2 (w : Workload) (tcp : Bool) (p : Policy) :
+    refDesignates w (clause2 tcp p) = refDesignates w p := by
+  funext ref
+  unfold refDesignates
+  rw [(clause2_fields tcp p).2.2.1]
+
 theorem filter_applies_clause2 (w : Workload) (tcp : Bool) (ps : List Policy) :
     (ps.map (clause2 tcp)).filter (applies w) = (ps.filter (applies w)).map (clause2 tcp) := by
   rw [List.filter_map]
   congr 1
   apply List.filter_congr
   intro p _
-  simp only [Function.comp, applies, (clause2_fields tcp p).2.2.1, (clause2_fields tcp p).2.2.2.2.1,
-    (clause2_fields tcp p).2.2.2.2.2]
+  simp only [Function.comp, applies, nsInScope, selectorMatches, refDesignates_clause2,
+    (clause2_fields tcp p).2.2.1, (clause2_fields tcp p).2.2.2.2.1, (clause2_fields tcp p).2.2.2.2.2]
 
 /-- **The property, whole chain**: CUSTOM filters then AUDIT, DENY, ALLOW decide every request exactly
     as the statement says, on HTTP and TCP chains, for translatable and untranslatable rules alike. -/
@@ -1041,16 +1047,16 @@ theorem compile_all_exact (w : Workload) (o : BuildOpts) (c : CustomOpts) (ps : 
     evalGs (compileAll w o c ps) req = specDecisionOn w o.bundle c o.forTCP ps req := by
   unfold compileAll specDecisionOn specDecisionAll compile
   rw [evalGs_append, evalGs_rbac, filter_applies_clause2]
-  have hsel : ps.filter (applies w) = selectPolicies w ps := rfl
+  have hsel : ps.filter (applies w) = selectPolicies w ps := (selectPolicies_eq_applies w ps).symm
   rw [hsel, custom_exact_selected o c _ req h hnd, compile_exact_selected o _ req h]
 
 theorem hypsOn_of_B (o : BuildOpts) (ps : List Policy) (req : Request) (h : hypsOnB o ps req = true) :
     HypsOn o ps req ∧ CustomEntriesDistinct o ps := by
   simp only [hypsOnB, Bool.and_eq_true, List.all_eq_true] at h
-  obtain ⟨⟨⟨h1, h2⟩, h3⟩, h4⟩ := h
+  obtain ⟨⟨h1, h3⟩, h4⟩ := h
   exact ⟨{ names := entriesDistinct_of_B o ps h3
            mig := fun p hp r hr => migrationSem_of_B o req p.ns _ (h1 p hp r hr).1
-           exact := fun p hp r hr => ruleExact_of_scope o req p.ns _ (h1 p hp r hr).2 h2 },
+           exact := fun p hp r hr => ruleExact_of_scope o req p.ns _ (h1 p hp r hr).2 },
          customEntriesDistinct_of_B o ps h4⟩
 
 /-- `compile_all_exact` with its hypotheses as the computable check the driver evaluates on every
@@ -1059,5 +1065,65 @@ theorem compile_all_exact_checked (w : Workload) (o : BuildOpts) (c : CustomOpts
     (req : Request) (h : hypsOnB o (selectPolicies w ps) req = true) :
     evalGs (compileAll w o c ps) req = specDecisionOn w o.bundle c o.forTCP ps req :=
   compile_all_exact w o c ps req (hypsOn_of_B _ _ _ h).1 (hypsOn_of_B _ _ _ h).2
+
+/-! ## The authz plugin: lazy cache, listener class, termination builder -/
+
+/-- The cache only ever holds what a fresh build would give. -/
+def Plugin.ok (fresh : Call → List GFilter) (p : Plugin) : Prop :=
+  (∀ f, p.tcp = some f → f = fresh .tcp) ∧ (∀ f, p.http = some f → f = fresh (.http false))
+
+theorem plugin_call_ok (fresh : Call → List GFilter) (p : Plugin) (c : Call) (h : p.ok fresh) :
+    (p.call fresh c).2 = callResult fresh c ∧ (p.call fresh c).1.ok fresh := by
+  cases c with
+  | tcp =>
+    unfold Plugin.call
+    cases ht : p.tcp with
+    | some f => exact ⟨h.1 f ht, h⟩
+    | none => exact ⟨rfl, ⟨fun f hf => by simpa using hf.symm, h.2⟩⟩
+  | tcpHttp => exact ⟨rfl, h⟩
+  | http out =>
+    cases out with
+    | true => exact ⟨rfl, h⟩
+    | false =>
+      unfold Plugin.call
+      cases hh : p.http with
+      | some f => exact ⟨h.2 f hh, h⟩
+      | none => exact ⟨rfl, ⟨h.1, fun f hf => by simpa using hf.symm⟩⟩
+
+/-- **The plugin's lazy cache is transparent**: whatever sequence of `BuildTCP` / `BuildHTTP(class)` /
+    `BuildTCPRulesAsHTTPFilter` calls the listener builder makes on one plugin builder, every call
+    yields what a fresh build yields for it - nothing for sidecar outbound listeners, the same
+    filters for sidecar inbound and gateway listeners. -/
+theorem plugin_cache_transparent (fresh : Call → List GFilter) (p : Plugin) (h : p.ok fresh) (cs : List Call) :
+    Plugin.run fresh p cs = cs.map (callResult fresh) := by
+  induction cs generalizing p with
+  | nil => rfl
+  | cons c cs ih =>
+    have := plugin_call_ok fresh p c h
+    simp only [Plugin.run, List.map_cons]
+    rw [this.1, ih _ this.2]
+
+theorem plugin_run_new (fresh : Call → List GFilter) (cs : List Call) :
+    Plugin.run fresh {} cs = cs.map (callResult fresh) :=
+  plugin_cache_transparent fresh {} (by
+    constructor <;> intro f hf <;> exact absurd hf (by simp)) cs
+
+/-- Every filter list a plugin builder hands out (sidecar outbound aside) decides as the statement
+    says for the chain kind it was built for - through the cache as well. -/
+theorem plugin_call_exact (w : Workload) (bundle : List Str) (useAuth : Bool) (c : CustomOpts) (ps : List Policy)
+    (req : Request) (calls : List Call) (i : Nat) (call : Call) (hi : calls[i]? = some call)
+    (hout : call ≠ .http true)
+    (h : ∀ o : BuildOpts, o.bundle = bundle → o.useAuth = useAuth → hypsOnB o (selectPolicies w ps) req = true) :
+    ((Plugin.run (buildFresh w bundle useAuth c ps) {} calls)[i]?).map (evalGs · req) =
+      some (specDecisionOn w bundle c (call != .http false) ps req) := by
+  rw [plugin_run_new, List.getElem?_map, hi, Option.map_some, Option.map_some]
+  congr 1
+  cases call with
+  | tcp => exact compile_all_exact_checked w _ c ps req (h _ rfl rfl)
+  | tcpHttp => exact compile_all_exact_checked w _ c ps req (h _ rfl rfl)
+  | http out =>
+    cases out with
+    | true => exact absurd rfl hout
+    | false => exact compile_all_exact_checked w _ c ps req (h _ rfl rfl)
 
 end IstioModel.C08
